@@ -182,6 +182,10 @@ Fixpoint succ_level (mt : Z) (l : list Z) (m : Z) : Z :=
 
 Definition in_rung (rec : tr) (m : Z) : bool := existsb (fun e => fst e =? m) (in_rungs rec).
 
+Definition add_rung (rec : tr) (m : Z) : tr :=
+  {| keep_case := keep_case rec; dec := dec rec; reported := reported rec; lur := lur rec;
+     task_bracket := task_bracket rec; running := running rec; in_rungs := in_rungs rec ++ [(m, false)] |}.
+
 Record task_info := { continues : bool; reached : bool; next_ms : option Z; ignore_data : bool }.
 
 (* StoppingRungSystem.on_task_report loop over the milestone rungs (decreasing levels).
@@ -207,11 +211,7 @@ Definition on_task_report (cfg : config) (rec : tr) (r : Z) (cont : bool) : res 
               Ok (rec, {| continues := false; reached := true; next_ms := None; ignore_data := false |})
             else
               let '(c, mr, nx, add) := stop_loop rec r cont (rev (skipn b (rung_levels cfg))) (max_t cfg) in
-              let rec' := match add with
-                          | Some m => {| keep_case := keep_case rec; dec := dec rec; reported := reported rec;
-                                         lur := lur rec; task_bracket := task_bracket rec; running := running rec;
-                                         in_rungs := in_rungs rec ++ [(m, false)] |}
-                          | None => rec end in
+              let rec' := match add with Some m => add_rung rec m | None => rec end in
               Ok (rec', {| continues := c; reached := mr; next_ms := Some nx; ignore_data := false |})
         | Promotion =>
             match running rec with
@@ -223,9 +223,7 @@ Definition on_task_report (cfg : config) (rec : tr) (r : Z) (cont : bool) : res 
                   else if mem_Z ms (rung_levels cfg) then
                     if in_rung rec ms then Error EInRungAssert
                     else
-                      Ok ({| keep_case := keep_case rec; dec := dec rec; reported := reported rec;
-                             lur := lur rec; task_bracket := task_bracket rec; running := running rec;
-                             in_rungs := in_rungs rec ++ [(ms, false)] |},
+                      Ok (add_rung rec ms,
                           {| continues := false; reached := true;
                              next_ms := Some (succ_level (max_t cfg) (rung_levels cfg) ms); ignore_data := ign |})
                   else Ok (rec, {| continues := false; reached := true; next_ms := None; ignore_data := ign |})
@@ -235,36 +233,55 @@ Definition on_task_report (cfg : config) (rec : tr) (r : Z) (cont : bool) : res 
       else Ok (rec, {| continues := false; reached := true; next_ms := None; ignore_data := false |})
   end.
 
+(* HyperbandScheduler._update_searcher, first part: (do_update, pending_resources) *)
+Definition us_plan (cfg : config) (r : Z) (ti : task_info) : bool * list Z :=
+  match pol cfg with
+  | Rungs =>
+      if mem_Z r (rung_levels cfg) || (r =? max_t cfg) then
+        (true, if continues ti && reached ti then match next_ms ti with Some n => [n] | None => [] end else [])
+      else (false, [])
+  | _ =>
+      (true,
+       if continues ti then
+         match next_ms ti with
+         | None => [r + 1]
+         | Some n => if myopic cfg then [r + 1] else if reached ti then zrange (r + 1) n else []
+         end
+       else [])
+  end.
+
+(* HyperbandScheduler._update_searcher_internal (called when do_update) *)
+Definition us_internal (cfg : config) (s : sstate) (rec : tr) (t : Z) : res sstate :=
+  match pol cfg with
+  | RungsAndLast =>
+      match reported rec with
+      | Some (r', _) => if negb (keep_case rec) then remove_case s t r' else Ok s
+      | None => Ok s
+      end
+  | _ => Ok s
+  end.
+
 (* HyperbandScheduler._update_searcher: (do_update, searcher state) *)
 Definition update_searcher (cfg : config) (s : sstate) (rec : tr) (t r : Z) (ti : task_info) : res (bool * sstate) :=
-  let '(do_update, pending) :=
-    match pol cfg with
-    | Rungs =>
-        if mem_Z r (rung_levels cfg) || (r =? max_t cfg) then
-          (true, if continues ti && reached ti then match next_ms ti with Some n => [n] | None => [] end else [])
-        else (false, [])
-    | _ =>
-        (true,
-         if continues ti then
-           match next_ms ti with
-           | None => [r + 1]
-           | Some n => if myopic cfg then [r + 1] else if reached ti then zrange (r + 1) n else []
-           end
-         else [])
-    end in
-  (* _update_searcher_internal *)
-  bind (if do_update then
-          match pol cfg with
-          | RungsAndLast =>
-              match reported rec with
-              | Some (r', _) => if negb (keep_case rec) then remove_case s t r' else Ok s
-              | None => Ok s
-              end
-          | _ => Ok s
-          end
-        else Ok s) (fun s1 =>
-  bind (register_all s1 t pending) (fun s2 => Ok (do_update, s2))).
+  let du := fst (us_plan cfg r ti) in
+  bind (if du then us_internal cfg s rec t else Ok s) (fun s1 =>
+  bind (register_all s1 t (snd (us_plan cfg r ti))) (fun s2 => Ok (du, s2))).
 
+(* on_trial_result: the largest_update_resource guard *)
+Definition set_lur (rec : tr) (l : option Z) : tr :=
+  {| keep_case := keep_case rec; dec := dec rec; reported := reported rec; lur := l;
+     task_bracket := task_bracket rec; running := running rec; in_rungs := in_rungs rec |}.
+Definition lur_step (rec : tr) (r : Z) (do_update : bool) : res (bool * tr) :=
+  if do_update then
+    let l := match lur rec with Some l => l | None => r - 1 end in
+    if r <? l then Error ELurAssert
+    else if r =? l then Ok (false, rec)
+    else Ok (true, set_lur rec (Some r))
+  else Ok (false, rec).
+
+Definition set_report (rec : tr) (k : bool) (r : Z) (v : Q) : tr :=
+  {| keep_case := k; dec := dec rec; reported := Some (r, v); lur := lur rec;
+     task_bracket := task_bracket rec; running := running rec; in_rungs := in_rungs rec |}.
 (* HyperbandScheduler._cleanup_trial on the record: terminator.on_task_remove + trial_decision *)
 Definition cleanup_rec (rec : tr) (d : decision) : tr :=
   {| keep_case := keep_case rec; dec := d; reported := reported rec; lur := lur rec;
@@ -282,16 +299,7 @@ Definition on_trial_result (cfg : config) (st : state) (t r : Z) (v : Q) (cont :
             Ok ({| srch := srch st; trials := upd t rec1 (trials st); reps := reps st |}, CONTINUE)
           else
             bind (update_searcher cfg (srch st) rec1 t r ti) (fun '(do_update, s1) =>
-            let rec2 := {| keep_case := reached ti; dec := dec rec1; reported := Some (r, v); lur := lur rec1;
-                           task_bracket := task_bracket rec1; running := running rec1; in_rungs := in_rungs rec1 |} in
-            bind (if do_update then
-                    let l := match lur rec2 with Some l => l | None => r - 1 end in
-                    if r <? l then Error ELurAssert
-                    else if r =? l then Ok (false, rec2)
-                    else Ok (true, {| keep_case := keep_case rec2; dec := dec rec2; reported := reported rec2;
-                                      lur := Some r; task_bracket := task_bracket rec2; running := running rec2;
-                                      in_rungs := in_rungs rec2 |})
-                  else Ok (false, rec2)) (fun '(do_update2, rec3) =>
+            bind (lur_step (set_report rec1 (reached ti) r v) r do_update) (fun '(do_update2, rec3) =>
             let d := if continues ti then CONTINUE
                      else match sty cfg with
                           | Stopping => STOP
@@ -417,12 +425,13 @@ Fixpoint run (cfg : config) (st : state) (h : list event) : res state :=
 (* ------------------------------------------------------------------ *)
 (* which events the tuner protocol can produce in a state              *)
 (* ------------------------------------------------------------------ *)
-(* highest level the trial has delivered (not ignored) so far: level of reported_result, else the
-   level it was resumed from, else 0 *)
+(* highest level the trial has delivered (not ignored) so far: level of reported_result; after a
+   restart (reported_result = None) the level of the last searcher update (the rung level the
+   trial was paused at); 0 for a fresh trial *)
 Definition hi (rec : tr) : Z :=
   match reported rec with
   | Some (r, _) => r
-  | None => match running rec with Some (_, Some f) => f | _ => 0 end
+  | None => match lur rec with Some l => l | None => 0 end
   end.
 
 Definition legal_b (cfg : config) (st : state) (e : event) : bool :=
